@@ -281,6 +281,7 @@ func (s *Server) publishIfCurrent(
 	resolved *include.ResolvedJournal,
 	diagnostics []protocol.Diagnostic,
 ) {
+	verifPublishPoint(docURI, content)
 	s.publishMu.Lock()
 	defer s.publishMu.Unlock()
 
